@@ -706,3 +706,61 @@ impl EncodeAttributeValue for Unknown {
 //@rules R5P
 //@end
 }
+// `<[u8; N]>::try_from(Vec<u8>)` / `vec.try_into()`: Ok (the elements) exactly when the length is N, else the vector back (std)
+#[verifier::external_body]
+pub fn vx_array_from_vec<const N: usize>(v: Vec<u8>) -> (r: Result<[u8; N], Vec<u8>>)
+    ensures r is Ok <==> v@.len() == N, r is Ok ==> r->Ok_0@ == v@,
+{ unimplemented!() }
+// USERHASH = SHA-256(OpaqueString(username) ":" OpaqueString(realm))  (RFC 8489 14.4)
+pub open spec fn user_hash_text(name: Seq<char>, realm: Seq<char>) -> Seq<u8> {
+    vstd::utf8::encode_utf8(opaque_prepared(name) + ":"@ + opaque_prepared(realm))
+}
+//@item stun_rs :: mod attributes > mod stun > mod user_hash > fn do_sha256
+//@tags C19 C02
+//@rules R1S
+//@spec
+    ensures r is Ok <==> opaque_ok(name@) && opaque_ok(realm@) && sha256_spec(user_hash_text(name@, realm@)).len() == 32,
+        r is Ok ==> r->Ok_0@ == sha256_spec(user_hash_text(name@, realm@)),
+//@end
+impl UserHash {
+//@item stun_rs :: mod attributes > mod stun > mod user_hash > impl UserHash > fn new
+//@tags C19 C02
+//@sig
+    pub fn new(name: &str, realm: &str) -> (r: Result<Self, StunError>)
+//@sub "do_sha256(name.as_ref(), realm.as_ref())?" => "do_sha256(name, realm)?"
+//@sub "vec.try_into()" => "vx_array_from_vec::<USER_HASH_LEN>(vec)"
+//@spec
+    ensures r is Ok <==> opaque_ok(name@) && opaque_ok(realm@) && sha256_spec(user_hash_text(name@, realm@)).len() == 32,
+        r is Ok ==> r->Ok_0.0@ == sha256_spec(user_hash_text(name@, realm@)),
+//@end
+}
+
+// ---------------------------------------------------------------- constructors of the quoted-text kinds
+impl Nonce {
+//@item stun_rs :: mod attributes > mod stun > mod nonce > impl Nonce > fn new
+//@tags C19 C01
+//@sig
+    pub fn new(value: &str) -> (r: Result<Self, StunError>)
+//@sub "QuotedString::try_from(value.as_ref())?" => "QuotedString::new(value)?"
+//@sub "name.as_str().len()" => "vx_str_len(name.as_str())"
+//@sub "MAX_ENCODED_SIZE" => "vx_nonce::MAX_ENCODED_SIZE"
+//@spec
+    ensures r is Ok <==> qs_valid(value@) && vstd::utf8::encode_utf8(qs_trim(value@)).len() <= 509,
+        r is Ok ==> r->Ok_0.0.0@ == qs_trim(value@),
+//@end
+}
+impl Realm {
+//@item stun_rs :: mod attributes > mod stun > mod realm > impl Realm > fn new
+//@tags C19 C01
+//@sig
+    pub fn new(value: &str) -> (r: Result<Self, StunError>)
+//@sub "strings::opaque_string_prepapre(value.as_ref())?" => "strings::opaque_string_prepapre(value)?"
+//@sub "QuotedString::try_from(realm.as_ref())?" => "QuotedString::new(realm.as_ref())?"
+//@sub "realm.as_str().len()" => "vx_str_len(realm.as_str())"
+//@sub "MAX_ENCODED_SIZE" => "vx_realm::MAX_ENCODED_SIZE"
+//@spec
+    ensures r is Ok <==> opaque_ok(value@) && qs_valid(opaque_prepared(value@))
+            && vstd::utf8::encode_utf8(qs_trim(opaque_prepared(value@))).len() <= 509,
+        r is Ok ==> r->Ok_0.0.0@ == qs_trim(opaque_prepared(value@)),
+//@end
+}
